@@ -51,16 +51,18 @@ def _small_c07(args):
     tx, ty = T(row['x']), T(row['y'])
     cxs, cys = all_pairs(tx, ty)
     out = []
-    routes = ['operator', 'function', 'numpy']
+    routes = ['operator', 'function', 'numpy', 'iop']
     for j, op in enumerate(('add', 'sub', 'mul')):
-        for r in (routes if tier == 'thorough' else [routes[(idx + j) % 3]]):
+        for r in (routes if tier == 'thorough' else [routes[(idx + j) % 4]]):
             out.append(x_arith.observe_arith(fx, np, [pid], op, tx, ty, cxs, cys, route=r))
         # repr method gives the same exact results
         out.append(x_arith.observe_arith(fx, np, [pid], op, tx, ty, cxs, cys, route='operator', method='repr'))
+        if tx[2] <= 0 or ty[2] <= 0:      # ... also for operands built by value from Python integers (their reads are integer arrays)
+            out.append(x_arith.observe_arith(fx, np, [pid], op, tx, ty, cxs, cys, route=['operator', 'function'][(idx + j) % 2], method=['repr', 'raw'][(idx // 2) % 2], dirty='intval'))
         # operands with a history (sticky overflow/underflow/inaccuracy flags already raised)
-        out.append(x_arith.observe_arith(fx, np, [pid], op, tx, ty, cxs, cys, route=routes[(idx + j + 1) % 3], dirty=True))
+        out.append(x_arith.observe_arith(fx, np, [pid], op, tx, ty, cxs, cys, route=routes[(idx + j + 1) % 4], dirty=True))
         # operands that received their codes by in-place writes after having been used (anything cached about them is stale)
-        out.append(x_arith.observe_arith(fx, np, [pid], op, tx, ty, cxs, cys, route=routes[(idx + j + 2) % 3], dirty=x_arith.HIST[(idx + j) % len(x_arith.HIST)]))
+        out.append(x_arith.observe_arith(fx, np, [pid], op, tx, ty, cxs, cys, route=routes[(idx + j + 2) % 4], dirty=x_arith.HIST[(idx + j) % len(x_arith.HIST)]))
         out.append(x_arith.observe_arith(fx, np, [pid], op, tx, ty, [cxs[(idx * 7) % len(cxs)]], [cys[(idx * 7) % len(cys)]], scalar=True,
                                          dirty=x_arith.HIST[(idx + j + 1) % len(x_arith.HIST)]))
     # scalar corner calls (per-element flags) and broadcasting (scalar with array, 2-D with 1-D)
@@ -140,22 +142,26 @@ def _small_c08(args):
             for m in (MODES if tier == 'thorough' else [MODES[(k + j) % 10] for j in (0, 3, 7)]):
                 k += 1
                 for method in ('raw', 'repr'):
-                    route = 'operator' if (k % 2 == 0) else 'function'
+                    route = ['operator', 'function', 'iop', 'function'][k % 4]
                     out.append(x_arith.observe_arith(fx, np, [pid], op, tx, ty, cxs, cys, route=route, sizing=pol, method=method,
-                                                     xmodes=m, ymodes=MODES[(k + 5) % 10]))
+                                                     xmodes=m, ymodes=MODES[(k + 5) % 10], dirty=('intval' if (k % 3 == 0 and (tx[2] <= 0 or ty[2] <= 0)) else False)))
         for tf in _targets(tx, ty, idx):
             for target in ('out', 'out_like'):
                 for m in (MODES if tier == 'thorough' else [MODES[(k + j) % 10] for j in (1, 6)]):
                     k += 1
-                    out.append(x_arith.observe_arith(fx, np, [pid], op, tx, ty, cxs, cys, route='function' if k % 2 else 'operator',
-                                                     sizing='optimal', method='raw' if k % 3 else 'repr', xmodes=MODES[(k + 3) % 10],
+                    meth = 'raw' if k % 3 else 'repr'
+                    rt = ['operator', 'function', 'iop', 'numpy'][k % 4]
+                    if rt == 'numpy' and (target != 'out' or meth != 'raw'):
+                        rt = 'function'
+                    out.append(x_arith.observe_arith(fx, np, [pid], op, tx, ty, cxs, cys, route=rt,
+                                                     sizing='optimal', method=meth, xmodes=MODES[(k + 3) % 10],
                                                      ymodes=MODES[(k + 4) % 10], target=target, tfmt=tf, tmodes=m))
     # constants on either side
     lx, hx = rng_of(tx)
     xs = list(range(lx, hx + 1))
     consts = [F(1), F(-1), F(3, 2), F(-5, 4), F(1, 4), F(7, 8), F(2), F(-3), F(0), F(5, 8), F(-1, 2), F(11, 4)]
     for op in ('add', 'sub', 'mul'):
-        for side in ('right', 'left'):
+        for side in ('right', 'left', 'inplace'):
             for ois in ('same', 'best'):
                 for cs in ('same', 'optimal', 'largest', 'smallest'):
                     k += 1
@@ -183,7 +189,7 @@ def _small_c09(args):
     for r in ('trunc', 'around', 'floor'):
         for method in ('raw', 'repr'):
             out.append(x_arith.observe_div(fx, np, [pid], tx, ty, cxs, cys, method=method, rnd=r,
-                                           route=['operator', 'function', 'numpy'][(idx + len(out)) % 3]))
+                                           route=['operator', 'function', 'numpy', 'iop'][(idx + len(out)) % 4]))
     out.append(x_arith.observe_div(fx, np, [pid], tx, ty, cxs, cys, method=['raw', 'repr'][idx % 2], rnd='trunc',
                                    hist=x_arith.HIST[idx % len(x_arith.HIST)]))
     lo, hi = rng_of(tx)
@@ -238,7 +244,7 @@ def _wide_c07(args):
             a, b = _codes(rng, tx, 6), _codes(rng, ty, 6)
             cxs = [x for x in a for _ in b]
             cys = [y for _ in a for y in b]
-            out.append(x_arith.observe_arith(fx, np, [pid], op, tx, ty, cxs, cys, route=rng.choice(['operator', 'function', 'numpy']),
+            out.append(x_arith.observe_arith(fx, np, [pid], op, tx, ty, cxs, cys, route=rng.choice(['operator', 'function', 'numpy', 'iop']),
                                              method=rng.choice(['raw', 'raw', 'repr'])))
             out.append(x_arith.observe_arith(fx, np, [pid], op, tx, ty, [rng.choice(a)], [rng.choice(b)], scalar=True,
                                              dirty=rng.choice([False, True, 'inplace', 'resign'])))
@@ -315,7 +321,7 @@ def _wide_c09(args):
         cxs = [x for x in a for _ in b]
         cys = [y for _ in a for y in b]
         out.append(x_arith.observe_div(fx, np, [pid], tx, ty, cxs, cys, method=rng.choice(['raw', 'repr']),
-                                       rnd=rng.choice(['trunc', 'around', 'floor']), route=rng.choice(['operator', 'function', 'numpy']),
+                                       rnd=rng.choice(['trunc', 'around', 'floor']), route=rng.choice(['operator', 'function', 'numpy', 'iop']),
                                        hist=rng.choice([None, None] + x_arith.HIST)))
     return [r for r in out if r is not None]
 
